@@ -125,6 +125,26 @@ class FaultBackend:
         pass
 
 
+class JitterPool:
+    """Stand-in for ThreadPoolExecutor inside replicat.repository: every submitted job starts after a small random delay, so that
+    jobs of one pool complete in an order unrelated to their submission order (a loaded machine)."""
+    rng = random.Random(0)
+
+    def __new__(cls, *a, **k):
+        from concurrent.futures import ThreadPoolExecutor
+        import time as _time
+
+        class _Pool(ThreadPoolExecutor):
+            def submit(self, fn, /, *args, **kwargs):
+                d = JitterPool.rng.random() * 0.004
+
+                def late():
+                    _time.sleep(d)
+                    return fn(*args, **kwargs)
+                return super().submit(late)
+        return _Pool(*a, **k)
+
+
 def quiet():
     return contextlib.redirect_stdout(io.StringIO()), contextlib.redirect_stderr(io.StringIO())
 
@@ -784,8 +804,18 @@ def run_history(seed, scratch: Path, rep: Report, *, nops, weights, checks, conc
                         viol('restore_mismatch', msg, {'snapshot': n[:8], 'owner': s['owner']})
         return world
 
-    with quiet()[0], quiet()[1]:
-        world = asyncio.run(go())
+    import replicat.repository as _R
+    jitter = rng.random() < 0.35
+    saved_pool = _R.ThreadPoolExecutor
+    if jitter:
+        JitterPool.rng = random.Random(seed + 3)
+        _R.ThreadPoolExecutor = JitterPool
+    try:
+        with quiet()[0], quiet()[1]:
+            world = asyncio.run(go())
+    finally:
+        _R.ThreadPoolExecutor = saved_pool
+    rep.count('thread_pool_jitter' if jitter else 'thread_pool_plain')
     rep.count('encrypted' if encrypted else 'unencrypted')
     rep.count('long_lived_repository_objects' if world.long_lived else 'one_repository_object_re-unlocked' if world.one_object else 'fresh_repository_per_command')
     for d in descr:
